@@ -103,6 +103,8 @@ REWRITES = {
     "option_iter_find_map": ("re", r"(?s)opt\.iter\(\)\s*\.map\(\|boxed\| boxed\.as_ref\(\)\)\s*\.find_map\(\|r\| ", r"option_find_map(opt, |r| ", "Option::iter().map(Box::as_ref).find_map(f): an Option yields at most one element -> shim `match opt { Some(b) => f(&**b), None => None }`"),
     "or_else_inline": ("opt_or_else", "", "", "Option::or_else(f) inlined as its std definition `match self { Some(v) => Some(v), None => f() }`"),
     "slice_from": ("re", r"&tokens\[offset\.\.\]", r"slice_from(tokens, offset)", "&s[a..] (RangeFrom indexing) -> shim, panics iff a > len"),
+    "filter_map_map_collect": ("chain_fmm", "", "", "xs.iter().filter_map(f).map(g).collect() -> shim with the same std body (R8)"),
+    "tuple_param_to_let": ("re", r"\|\(p, offset\)\|\s*\{", r"|p_offset| { let (p, offset) = p_offset;", "Verus closures take variables, not patterns: the tuple pattern of the parameter becomes a let binding at the start of the body"),
     "drop_const_fn": ("re", r"\bconst fn\b", "fn", "const fn that calls non-const shim"),
 }
 
@@ -269,6 +271,35 @@ def apply_rewrite(name, text):
             d3 -= text[e] == "}"
             e += 1
         return text[:m.start()] + repl + text[e:], {"rewrite": name, "why": why, "sites": [{"from": text[m.start():m.start() + 120] + " ... }", "to": repl}]}
+    if spec[0] == "chain_fmm":
+        why = spec[3]
+        m = re.search(r"\.\s*iter\(\)\s*\.\s*filter_map\s*\(", text)
+        if not m:
+            return text, {"rewrite": name, "why": why, "sites": []}
+        dot = m.start()
+        rs = _postfix_chain_start(text, dot)
+        recv = re.sub(r"\s+", "", text[rs:dot])
+        def close(k):
+            depth = 1
+            while depth:
+                if text[k] in "([{":
+                    depth += 1
+                elif text[k] in ")]}":
+                    depth -= 1
+                k += 1
+            return k
+        k1 = close(m.end())
+        f = text[m.end():k1 - 1].strip()
+        m2 = re.match(r"\s*\.\s*map\s*\(", text[k1:])
+        if not m2:
+            return text, {"rewrite": name, "why": why, "sites": []}
+        k2 = close(k1 + m2.end())
+        g = text[k1 + m2.end():k2 - 1].strip()
+        m3 = re.match(r"\s*\.\s*collect\(\)", text[k2:])
+        if not m3:
+            return text, {"rewrite": name, "why": why, "sites": []}
+        new = f"filter_map_map_collect(&{recv}, {f}, {g})"
+        return text[:rs] + new + text[k2 + m3.end():], {"rewrite": name, "why": why, "sites": [{"from": text[rs:rs + 100] + " ...", "to": new[:100]}]}
     if spec[0] == "chain_fm":
         _, method, fname, why = spec
         pat = re.compile(r"\.\s*iter\(\)\s*\.\s*" + method + r"\s*\(")
@@ -421,6 +452,8 @@ def parse_seg(seg):
             return (k, seg[len(k) + 1:].strip())
     if seg.startswith("impl ") or seg.startswith("impl<"):
         return ("impl", rscan.norm(seg[4:]))
+    if seg.startswith("letexpr "):
+        return ("letexpr", seg[len("letexpr "):].strip())
     if seg.startswith("loopbody "):
         return ("loopbody", seg[len("loopbody "):].strip())
     if seg.startswith("letblock "):
@@ -446,6 +479,25 @@ def resolve(file, segs):
     chain = []
     item = None
     for n, (kind, name) in enumerate(segs):
+        if kind == "letexpr":
+            # `let NAME [: T] = <expr>;` — the initialiser expression is lifted like a closure body (R6)
+            found = []
+            for x in range(lo, hi - 1):
+                if toks[x].kind == "id" and toks[x].text == "let" and toks[x + 1].text == name:
+                    y = x + 2
+                    while y < hi and toks[y].text != "=":
+                        y = toks[y].mate + 1 if toks[y].kind == "open" else y + 1
+                    z = y + 1
+                    while z < hi and toks[z].text != ";":
+                        z = toks[z].mate + 1 if toks[z].kind == "open" else z + 1
+                    found.append((x, y, y + 1, z - 1, False))
+            if len(found) != 1:
+                raise LostAnchor(f"{file} :: letexpr {name} resolves {len(found)} times")
+            r = Resolved()
+            r.src, r.toks, r.closure = src, toks, found[0]
+            r.chain = chain
+            r.kind = "closure"
+            return r
         if kind == "loopbody":
             # body block of the k-th loop statement in the region (R6: the loop header is dropped, the body is lifted)
             loops = [x for x in range(lo, hi) if toks[x].kind == "id" and toks[x].text in ("for", "while", "loop") and not (x > 0 and toks[x - 1].text in (".", "::"))]
